@@ -20,6 +20,7 @@ worker exits, after-commit steps) eagerly between observed ones, each through th
   dropbegin             drop(WriteBehind) starts                          -> ok
   dropend               drop(WriteBehind) returned                        -> returned
   end                   dump                                              -> store … applied=N chunks=…
+  crashed               did the process abort?                            -> crashed 0|1
 
 OPS: `-` or comma separated `space:col:key:sub=VAL` with VAL a number or `-` (delete).
 -/
@@ -177,6 +178,7 @@ def handle (d : Drv) (line : String) : Drv × String :=
           | .ok s2 => match fireObs s2 .dJoinAfter with
             | .error e => ({ d with st := some s2 }, s!"stuck joinAfter {e}")
             | .ok s3 => ({ d with st := some s3 }, if s3.dpc == .returned then "returned" else "stuck")
+      | "crashed", [] => (d, s!"crashed {if s.crashed then 1 else 0}")
       | "end", [] =>
         let kv := d.keys.filterMap (fun k => match s.store k with
           | some v => some (showKey k ++ "=" ++ toString v)
